@@ -476,53 +476,78 @@ func hSameTimePtr(a, b *time.Time) bool {
 var hTypePool = []string{"VerifiableCredential", "ExampleCredential", "OtherCredential"}
 
 // ---------------------------------------------------------------------------------------------
-// H01a: composition of verifier.Verify.
-func H01a() {
+// H01a / H01a2: composition of verifier.Verify. One scenario builder, one oracle; the two harnesses differ in which
+// SHAPE choices (lengths, nil-ness, formats - these fork) are enumerated. All outside FACTS (store, status list, trust,
+// resolvers, signature verdicts, instants) stay symbolic in both.
+//
+//	scope 0 (H01a):  every type list, context/issuer/id presence, expiry, validAt; JSON-LD credential with one proof
+//	                 whose key id is the issuer's and whose window equals the credential's issuance.
+//	scope 1 (H01a2): required fields present, types [VerifiableCredential, ExampleCredential], no expiry, no stored
+//	                 revocation; every proof format / retained source / number of proofs / key id / proof window.
+func hVerifyScenario(id string, scope int) {
 	w := hNewWorld()
 
 	// --- the credential, field by field
 	var c vc.VerifiableCredential
 	pool := vParam("typepool", 2)
-	nTypes := vLen(1, 3)
-	typeIdx := make([]int, nTypes)
+	nTypes := 2
+	typeIdx := []int{0, 1}
+	hasContext, hasID := true, true
+	issuerPool := []string{"did:web:alice", "https://issuer.example", ""}
+	var issuer string
+	if scope == 0 {
+		nTypes = vLen(1, 3)
+		typeIdx = make([]int, nTypes)
+		for i := range typeIdx {
+			typeIdx[i] = vChoice(pool)
+		}
+		hasContext = vBool()
+		issuer = issuerPool[vChoice(3)]
+		hasID = vBool()
+	} else {
+		issuer = issuerPool[vChoice(2)]
+	}
 	hasBaseType := false
-	for i := range typeIdx {
-		typeIdx[i] = vChoice(pool)
-		c.Type = append(c.Type, ssi.MustParseURI(hTypePool[typeIdx[i]]))
-		if typeIdx[i] == 0 {
+	for _, ti := range typeIdx {
+		c.Type = append(c.Type, ssi.MustParseURI(hTypePool[ti]))
+		if ti == 0 {
 			hasBaseType = true
 		}
 	}
-	hasContext := vBool()
 	if hasContext {
 		c.Context = []ssi.URI{vc.VCContextV1URI()}
 	} else {
 		c.Context = []ssi.URI{ssi.MustParseURI("https://example.com/other/v1")}
 	}
-	issuer := []string{"did:web:alice", "", "https://issuer.example"}[vChoice(3)]
 	issuerIsDID := issuer == "did:web:alice"
 	if issuer != "" {
 		c.Issuer = ssi.MustParseURI(issuer)
 	}
 	w.signer = issuer
-	hasID := vBool()
 	if hasID {
 		id := ssi.MustParseURI("did:web:alice#1")
 		c.ID = &id
 	}
 	issued := hSymSecond("issued")
 	c.IssuanceDate = issued.time()
-	issuedIsZero := issued.sec == -62135596800 && issued.nsec == 0
+	issuedIsZero := issued.sec == -62135596800
 	var expires *hInstant
-	if vBool() {
+	if scope == 0 && vBool() {
 		e := hSymSecond("expires")
 		expires = &e
 		et := e.time()
 		c.ExpirationDate = &et
 	}
 	// proof format as set by the parser: "" (never parsed), JSON-LD with or without retained source, JWT
-	format := vChoice(4)
-	nProofs := 0
+	format, nProofs := 1, 1
+	if scope == 1 {
+		format = vChoice(4)
+		if format == 1 || format == 2 {
+			nProofs = vLen(0, 2)
+		}
+	} else {
+		vAssume(w.vmKind == 0 && !w.proofHasExpires && w.proofCreated.sec == issued.sec)
+	}
 	switch format {
 	case 0:
 		vCover("format:unset")
@@ -532,7 +557,6 @@ func H01a() {
 		if format == 2 {
 			vSetField(&c, "raw", "{json-ld source}")
 		}
-		nProofs = vLen(0, 2)
 		for i := 0; i < nProofs; i++ {
 			c.Proof = append(c.Proof, hProofSlot{})
 		}
@@ -542,17 +566,23 @@ func H01a() {
 		vSetField(&c, "raw", "h.p.s")
 	}
 	hasRaw := format >= 2
+	if scope == 1 {
+		vAssume(w.storeMode == 0 && w.statusMode != 1)
+	}
 
-	// --- trust configuration: per non-base type the issuer is listed or not
+	// --- trust configuration: per non-base type a list whose second entry differs from the issuer at most in its
+	// last byte, which is arbitrary (so "the issuer is listed" is a symbolic fact that needs no fork here)
 	tc := &trust.Config{}
 	trusted := make([]bool, len(hTypePool))
 	perType := map[string][]string{}
 	for i := 1; i < pool; i++ {
-		vTag("trusted." + hTypePool[i])
-		trusted[i] = vBool()
-		entry := "did:web:somebody-else"
-		if trusted[i] {
-			entry = issuer
+		entry := ""
+		trusted[i] = true
+		if n := len(issuer); n > 0 {
+			vTag("trustlist." + hTypePool[i])
+			last := vBytes(1)
+			entry = issuer[:n-1] + string(last)
+			trusted[i] = last[0] == issuer[n-1]
 		}
 		perType[hTypePool[i]] = []string{"did:web:unrelated", entry}
 	}
@@ -585,86 +615,107 @@ func H01a() {
 	v := hNewVerifier(w, tc)
 	err := v.Verify(c, allowUntrusted, checkSignature, validAt)
 
-	// --- reference: the conjunction the property states
-	requiredFields := hasBaseType && hasContext && issuer != "" && hasID && !issuedIsZero
+	// --- reference: the conjunction the property states. Written over local scalars with every call hoisted, so that
+	// the engine evaluates it as one formula (no forks inside the oracle).
+	storeMode, statusMode := w.storeMode, w.statusMode
+	resolveOK, keyOK, cryptoOK := w.resolveOK, w.keyOK, w.cryptoOK
+	headersOK, kidAlgOK, jwxOK, algSupported := w.headersOK, w.kidAlgOK, w.jwxOK, w.algSupported
+	vmKind, proofHasExpires := w.vmKind, w.proofHasExpires
+	requiredFields := hasBaseType && hasContext && issuer != "" && hasID
+	requiredFields = requiredFields && !issuedIsZero
 	atMostTwoTypes := nTypes <= 2
-	notRevoked := w.storeMode == 0 && w.statusMode != 1
-	trustOK := true
+	notRevoked := storeMode == 0 && statusMode != 1
+	allTrusted := true
 	for _, ti := range typeIdx {
-		if ti != 0 && !trusted[ti] {
-			trustOK = false
+		if ti != 0 {
+			t := trusted[ti]
+			allTrusted = allTrusted && t
 		}
 	}
-	trustOK = trustOK || allowUntrusted
-	inWindow := hInWindow(at, issued, expires, 5)
-	var proofUntil *hInstant
-	if w.proofHasExpires {
-		proofUntil = &w.proofExpires
+	trustOK := allTrusted || allowUntrusted
+	inWindow := hGE(at, 5, issued)
+	if expires != nil {
+		notExpired := hGE(*expires, 5, at)
+		inWindow = inWindow && notExpired
 	}
-	keyBound := w.vmKind == 0 || w.vmKind == 3
+	proofCreatedOK := hGE(at, 5, w.proofCreated)
+	proofNotExpired := hGE(w.proofExpires, 5, at)
+	proofInWindow := proofCreatedOK && (!proofHasExpires || proofNotExpired)
+	keyBound := vmKind == 0 || vmKind == 3
 	sigOK := false
 	switch format {
 	case 1, 2:
-		sigOK = nProofs == 1 && keyBound && hInWindow(at, w.proofCreated, proofUntil, 5) && w.keyOK && w.cryptoOK
+		sigOK = nProofs == 1
+		sigOK = sigOK && keyBound && proofInWindow && keyOK && cryptoOK
 	case 3:
-		sigOK = w.headersOK && w.kidAlgOK && w.keyOK && w.algSupported && w.jwxOK && (keyBound || w.vmKind == 2)
+		sigOK = headersOK && kidAlgOK && keyOK && algSupported && jwxOK && (keyBound || vmKind == 2)
 	}
-	authentic := !checkSignature || (issuerIsDID && w.resolveOK && (!hasRaw || w.headersOK) && sigOK)
-	valid := requiredFields && atMostTwoTypes && notRevoked && trustOK && inWindow && authentic
+	issuerOK := issuerIsDID
+	issuerOK = issuerOK && resolveOK && (!hasRaw || headersOK)
+	authentic := !checkSignature || (issuerOK && sigOK)
+	valid := requiredFields && atMostTwoTypes
+	valid = valid && notRevoked && trustOK && inWindow && authentic
 
 	if err == nil {
 		vCover("accepted")
-		vAssert(requiredFields, "H01a.required_fields: accepted a credential without type VerifiableCredential, default context, issuer, id or issuance date")
-		vAssert(atMostTwoTypes, "H01a.at_most_two_types: accepted a credential with more than two types")
-		vAssert(w.storeMode != 2, "H01a.store_error_fatal: accepted although the revocation store failed")
-		vAssert(w.storeMode != 1, "H01a.not_revoked_store: accepted a credential for which a revocation is stored")
-		vAssert(w.statusMode != 1, "H01a.not_revoked_statuslist: accepted a credential its status list marks revoked")
-		vAssert(trustOK, "H01a.trusted: accepted an untrusted issuer although trust was required")
-		vAssert(inWindow, "H01a.in_validity_window: accepted outside issuance-5s .. expiry+5s")
-		vAssert(len(w.storeAsked) == 1 && w.storeAsked[0].String() == c.ID.String(), "H01a.revocation_lookup_by_id: the revocation store was not asked for the credential's id")
-		vAssert(w.statusAsked == 1, "H01a.statuslist_consulted: the status list verifier was not consulted")
+		vAssert(requiredFields, id+".required_fields: accepted a credential without type VerifiableCredential, default context, issuer, id or issuance date")
+		vAssert(atMostTwoTypes, id+".at_most_two_types: accepted a credential with more than two types")
+		vAssert(storeMode != 2, id+".store_error_fatal: accepted although the revocation store failed")
+		vAssert(storeMode != 1, id+".not_revoked_store: accepted a credential for which a revocation is stored")
+		vAssert(statusMode != 1, id+".not_revoked_statuslist: accepted a credential its status list marks revoked")
+		vAssert(trustOK, id+".trusted: accepted an untrusted issuer although trust was required")
+		vAssert(inWindow, id+".in_validity_window: accepted outside issuance-5s .. expiry+5s")
+		vAssert(len(w.storeAsked) == 1 && w.storeAsked[0].String() == c.ID.String(), id+".revocation_lookup_by_id: the revocation store was not asked for the credential's id")
+		vAssert(w.statusAsked == 1, id+".statuslist_consulted: the status list verifier was not consulted")
 		if checkSignature {
 			vCover("accepted-with-signature")
-			vAssert(issuerIsDID && w.resolveOK, "H01a.issuer_resolved: accepted although the issuer's DID document does not resolve")
-			vAssert(sigOK, "H01a.signature_ok: accepted although the signature check of the property fails")
-			vAssert(len(w.didAsked) == 1 && w.didAsked[0].id.String() == issuer, "H01a.resolved_the_issuer: the DID resolved is not the issuer")
-			vAssert(!w.didAsked[0].md.AllowDeactivated, "H01a.no_deactivated_issuer: a deactivated issuer document was allowed")
-			vAssert(hSameTimePtr(w.didAsked[0].md.ResolveTime, validAt), "H01a.issuer_resolved_at_validation_time: issuer resolved at another time than the validation time")
-			vAssert(len(w.keyAsked) == 1, "H01a.one_key_lookup: not exactly one key lookup")
+			vAssert(issuerIsDID && resolveOK, id+".issuer_resolved: accepted although the issuer's DID document does not resolve")
+			vAssert(sigOK, id+".signature_ok: accepted although the signature check of the property fails")
+			vAssert(len(w.didAsked) == 1 && w.didAsked[0].id.String() == issuer, id+".resolved_the_issuer: the DID resolved is not the issuer")
+			vAssert(!w.didAsked[0].md.AllowDeactivated, id+".no_deactivated_issuer: a deactivated issuer document was allowed")
+			vAssert(hSameTimePtr(w.didAsked[0].md.ResolveTime, validAt), id+".issuer_resolved_at_validation_time: issuer resolved at another time than the validation time")
+			vAssert(len(w.keyAsked) == 1, id+".one_key_lookup: not exactly one key lookup")
 			k := w.keyAsked[0]
-			vAssert(hBeforeHash(k.keyID) == issuer, "H01a.key_of_issuer: the key used is not a key of the issuer")
-			vAssert(k.rel == resolver.AssertionMethod, "H01a.key_for_assertion: the key was not resolved as assertion key")
-			vAssert(hSameTimePtr(k.md.ResolveTime, validAt), "H01a.key_resolved_at_validation_time: key resolved at another time than the validation time")
+			vAssert(hBeforeHash(k.keyID) == issuer, id+".key_of_issuer: the key used is not a key of the issuer")
+			vAssert(k.rel == resolver.AssertionMethod, id+".key_for_assertion: the key was not resolved as assertion key")
+			vAssert(hSameTimePtr(k.md.ResolveTime, validAt), id+".key_resolved_at_validation_time: key resolved at another time than the validation time")
 			if format != 3 {
-				vAssert(len(w.ldVerified) == 1 && w.ldVerified[0].key == k.key, "H01a.verified_with_resolved_key: signature not verified with the resolved key")
+				vAssert(len(w.ldVerified) == 1 && w.ldVerified[0].key == k.key, id+".verified_with_resolved_key: signature not verified with the resolved key")
 			} else {
-				vAssert(w.jwxParsed == 1, "H01a.jwt_verified: JWT not verified")
+				vCover("accepted-jwt")
+				vAssert(w.jwxParsed == 1, id+".jwt_verified: JWT not verified")
 			}
 		}
 	} else {
 		vCover("rejected")
-		vAssert(!valid, "H01a.valid_is_accepted: a credential satisfying every condition of the property was rejected")
-		if requiredFields && atMostTwoTypes && w.storeMode == 1 {
-			vCover("revoked:store")
-			vAssert(errors.Is(err, types.ErrRevoked), "H01a.revoked_reported_store: a revoked credential is not reported as revoked")
-		}
-		if requiredFields && atMostTwoTypes && w.storeMode == 0 && w.statusMode == 1 {
-			vCover("revoked:statuslist")
-			vAssert(errors.Is(err, types.ErrRevoked), "H01a.revoked_reported_statuslist: a credential revoked on its status list is not reported as revoked")
-		}
-		if requiredFields && atMostTwoTypes && notRevoked && !trustOK {
-			vCover("untrusted")
-			vAssert(errors.Is(err, types.ErrUntrusted), "H01a.untrusted_reported: untrusted issuer is not reported as untrusted")
+		vAssert(!valid, id+".valid_is_accepted: a credential satisfying every condition of the property was rejected")
+		if requiredFields && atMostTwoTypes {
+			revokedInStore := storeMode == 1
+			revokedOnList := storeMode == 0 && statusMode == 1
+			untrusted := notRevoked && !trustOK
+			isRevoked := errors.Is(err, types.ErrRevoked)
+			isUntrusted := errors.Is(err, types.ErrUntrusted)
+			vAssert(!revokedInStore || isRevoked, id+".revoked_reported_store: a revoked credential is not reported as revoked")
+			vAssert(!revokedOnList || isRevoked, id+".revoked_reported_statuslist: a credential revoked on its status list is not reported as revoked")
+			vAssert(!untrusted || isUntrusted, id+".untrusted_reported: untrusted issuer is not reported as untrusted")
+			if isRevoked {
+				vCover("reported-revoked")
+			}
+			if isUntrusted {
+				vCover("reported-untrusted")
+			}
 		}
 	}
 	// H11d, soft-fail rule: a status list that cannot be checked is not fatal
-	if valid && w.statusMode == 2 {
+	if err == nil && w.statusAsked == 1 && statusMode == 2 {
 		vCover("statuslist:softfail")
 	}
 }
 
-func H01a_twin() {
-	w := hNewWorld()
+func H01a()  { hVerifyScenario("H01a", 0) }
+func H01a2() { hVerifyScenario("H01a2", 1) }
+
+func hTwinCredential(w *hWorld) vc.VerifiableCredential {
 	var c vc.VerifiableCredential
 	c.Type = []ssi.URI{ssi.MustParseURI(hTypePool[0]), ssi.MustParseURI(hTypePool[1])}
 	c.Context = []ssi.URI{vc.VCContextV1URI()}
@@ -672,8 +723,13 @@ func H01a_twin() {
 	w.signer = "did:web:alice"
 	id := ssi.MustParseURI("did:web:alice#1")
 	c.ID = &id
-	issued := hSymSecond("issued")
-	c.IssuanceDate = issued.time()
+	c.IssuanceDate = hSymSecond("issued").time()
+	return c
+}
+
+func H01a_twin() {
+	w := hNewWorld()
+	c := hTwinCredential(w)
 	vSetField(&c, "format", vc.JSONLDCredentialProofFormat)
 	c.Proof = []interface{}{hProofSlot{}}
 	tc := &trust.Config{}
@@ -682,5 +738,18 @@ func H01a_twin() {
 	hClock = &now
 	if hNewVerifier(w, tc).Verify(c, false, true, nil) == nil && len(w.keyAsked) == 1 && w.statusMode == 2 {
 		vAssert(false, "H01a_twin.reach: reachable")
+	}
+}
+
+func H01a2_twin() {
+	w := hNewWorld()
+	c := hTwinCredential(w)
+	vSetField(&c, "format", vc.JWTCredentialProofFormat)
+	vSetField(&c, "raw", "h.p.s")
+	tc := &trust.Config{}
+	now := hSymSecond("clock").time()
+	hClock = &now
+	if hNewVerifier(w, tc).Verify(c, true, true, nil) == nil && len(w.keyAsked) == 1 && w.keyAsked[0].keyID == "did:web:alice" {
+		vAssert(false, "H01a2_twin.reach: reachable")
 	}
 }
